@@ -290,6 +290,45 @@ func flowsFrom(v, e ssa.Value, depth int) bool {
 	return false
 }
 
+// errorPropagates: on every path from call on which its error e may be
+// non-nil, fn returns a non-nil error deriving from e (or a certainly non-nil
+// one).  Returns "" or what is wrong.
+func errorPropagates(c *core.Ctx, fn *ssa.Function, call ssa.Instruction, e ssa.Value, ei int, callee string) string {
+	isE := func(v ssa.Value) bool {
+		v = core.Canon(v)
+		if v == e {
+			return true
+		}
+		if phi, ok := v.(*ssa.Phi); ok {
+			for _, ed := range phi.Edges {
+				if core.Canon(ed) == e {
+					return true
+				}
+			}
+		}
+		return false
+	}
+	r := core.ReachFrom(core.After(call), nil, core.CutEstablishing(core.Eq(isE, core.IsNilConst)))
+	bad := ""
+	for _, ret := range core.Returns(fn) {
+		if !r.Has(ret) {
+			continue
+		}
+		rv := core.RetVal(ret, ei)
+		if rv == nil || core.IsNilConst(rv) {
+			bad = "when " + callee + " fails, " + core.FuncKey(fn) + " can still return a nil error (at " + c.Pos(ret.Pos()) + ")"
+			continue
+		}
+		if !flowsFrom(rv, e, 0) {
+			// a different error value: accept only if it is certainly non-nil
+			if !errorReturnConst(ret) {
+				bad = "when " + callee + " fails, the error returned at " + c.Pos(ret.Pos()) + " does not derive from it"
+			}
+		}
+	}
+	return bad
+}
+
 // ruleErrorFlow: every decoder call inside a member of D propagates its error.
 func ruleErrorFlow(c *core.Ctx, d *decoderSet, rule string, only func(*ssa.Function) bool) int {
 	n := 0
@@ -316,38 +355,7 @@ func ruleErrorFlow(c *core.Ctx, d *decoderSet, rule string, only func(*ssa.Funct
 				c.Fail(rule, key, dc.call.Pos(), "the error returned by "+dc.callee+" is never looked at (overwritten or ignored): a truncated input is accepted")
 				continue
 			}
-			isE := func(v ssa.Value) bool {
-				v = core.Canon(v)
-				if v == e {
-					return true
-				}
-				if phi, ok := v.(*ssa.Phi); ok {
-					for _, ed := range phi.Edges {
-						if core.Canon(ed) == e {
-							return true
-						}
-					}
-				}
-				return false
-			}
-			r := core.ReachFrom(core.After(dc.call.(ssa.Instruction)), nil, core.CutEstablishing(core.Eq(isE, core.IsNilConst)))
-			bad := ""
-			for _, ret := range core.Returns(fn) {
-				if !r.Has(ret) {
-					continue
-				}
-				rv := core.RetVal(ret, ei)
-				if rv == nil || core.IsNilConst(rv) {
-					bad = "when " + dc.callee + " fails, " + core.FuncKey(fn) + " can still return a nil error (at " + c.Pos(ret.Pos()) + ")"
-					continue
-				}
-				if !flowsFrom(rv, e, 0) {
-					// a different error value: accept only if it is certainly non-nil
-					if !errorReturnConst(ret) {
-						bad = "when " + dc.callee + " fails, the error returned at " + c.Pos(ret.Pos()) + " does not derive from it"
-					}
-				}
-			}
+			bad := errorPropagates(c, fn, dc.call.(ssa.Instruction), e, ei, dc.callee)
 			c.Check(bad == "", rule, key, dc.call.Pos(), "a failure of "+dc.callee+" reaches a non-nil error return on every path", bad)
 		}
 	}
